@@ -405,10 +405,11 @@ theorem readQ_minus_one : readQ "-1".toList = some (-1) := by
 
 /-- **`BezierChartParser::create` on the printed line**: the Bezier frame with the printed vertex count, type and
     orientation is pushed -/
-theorem openM_bezier (sh : Shape) (name : Str) (c0 : Option Chart) (rs : List Frame) (node : Node) (line : Nat)
+theorem openM_bezier (sh : Shape) (dim : Nat) (name : Str) (c0 : Option Chart) (rs : List Frame) (node : Node)
+    (hw : node.wdim = 2) (line : Nat)
     (n : Nat) (cl : Bool) (o : Rat) (h2 : 2 ≤ n) (h64 : n < 2 ^ 64) (ho : o = 1 ∨ o = -1) :
-    openM (mkSt sh 2 (Frame.chart name c0 :: rs) node) line (bezMarkup n cl o) =
-      .ok (mkSt sh 2 (Frame.bezier n cl o [] [] :: Frame.chart name c0 :: rs) node) := by
+    openM (mkSt sh dim (Frame.chart name c0 :: rs) node) line (bezMarkup n cl o) =
+      .ok (mkSt sh dim (Frame.bezier n cl o [] [] :: Frame.chart name c0 :: rs) node) := by
   obtain ⟨a1, a2, a3, a4⟩ := bez_attrOf n cl o
   have hck := checkAttribs_bezier line n cl o
   have hn : String.ofList (bezMarkup n cl o).name = "Bezier" := String_ofList_toList _
@@ -426,10 +427,10 @@ theorem openM_bezier (sh : Shape) (name : Str) (c0 : Option Chart) (rs : List Fr
       simp only [this, Bool.false_eq_true, if_false]
     · have : ((-1 : Rat) == -1) = true := by decide
       simp only [this, if_true, readQ_minus_one, Option.getD_some]
-  generalize hst : mkSt sh 2 (Frame.chart name c0 :: rs) node = st
+  generalize hst : mkSt sh dim (Frame.chart name c0 :: rs) node = st
   generalize bezMarkup n cl o = m at a1 a2 a3 a4 hck hn hcl ⊢
   have hstack : st.stack = Frame.chart name c0 :: rs := by rw [← hst]; rfl
-  have hd : st.dim = 2 := by rw [← hst]; rfl
+  have hd : st.wdim = 2 := by rw [← hst]; exact hw
   have hsz : ¬ n < 2 := by omega
   unfold openM
   rw [hstack]
@@ -437,9 +438,9 @@ theorem openM_bezier (sh : Shape) (name : Str) (c0 : Option Chart) (rs : List Fr
   simp [← hst, mkSt]
   rcases ho with rfl | rfl
   · have h1 : ¬ ((1 : Rat) = -1) := by decide
-    simp [h1]
+    simp [h1, hw]
   · have h1 : readQ ['-', '1'] = some (-1) := readQ_minus_one
-    simp [h1]
+    simp [h1, hw]
 
 /-! ## Part 3: the blocks -/
 
@@ -531,19 +532,19 @@ theorem Run_params_block (sh : Shape) (dim sz : Nat) (cl : Bool) (o : Rat)
     simpa using this
 
 /-- **the whole `<Bezier>` block inside a `<Chart>`**: the chart is stored in the `ChartParser` -/
-theorem Run_writeBezier (sh : Shape) (name : Str) (c0 : Option Chart) (rs : List Frame) (node : Node) (b : Str)
-    (below : List Str) (cl : Bool) (o : Rat) (segs : List (List (List Rat) × List Rat)) (params : List Rat)
+theorem Run_writeBezier (sh : Shape) (dim : Nat) (name : Str) (c0 : Option Chart) (rs : List Frame) (node : Node)
+    (hw : node.wdim = 2) (b : Str) (below : List Str) (cl : Bool) (o : Rat) (segs : List (List (List Rat) × List Rat)) (params : List Rat)
     (hok : BezierOk cl o segs params) :
     Run (writeBezier cl o segs params) (b :: below)
-      (mkSt sh 2 (Frame.chart name c0 :: rs) node) (b :: below)
-      (mkSt sh 2 (Frame.chart name (some (Chart.bezier cl o segs params)) :: rs) node) := by
+      (mkSt sh dim (Frame.chart name c0 :: rs) node) (b :: below)
+      (mkSt sh dim (Frame.chart name (some (Chart.bezier cl o segs params)) :: rs) node) := by
   obtain ⟨h2, h64, hfirst, hrows, hpar, ho⟩ := hok
   rw [writeBezier_eq]
   have r1 := Run_open_line (k := 4) (a := 'B') (by decide) (scan_bezier_line segs.length cl o) rfl rfl
-    (fun line => openM_bezier sh name c0 rs node line segs.length cl o h2 h64 ho) (b :: below)
-  have r2 := Run_points_block sh 2 segs.length cl o [] [] (Frame.chart name c0 :: rs) node "Bezier".toList
+    (fun line => openM_bezier sh dim name c0 rs node hw line segs.length cl o h2 h64 ho) (b :: below)
+  have r2 := Run_points_block sh dim segs.length cl o [] [] (Frame.chart name c0 :: rs) node "Bezier".toList
     (b :: below) segs rfl hrows hfirst
-  have r3 := Run_params_block sh 2 segs.length cl o ([] ++ segs) (Frame.chart name c0 :: rs) node "Bezier".toList
+  have r3 := Run_params_block sh dim segs.length cl o ([] ++ segs) (Frame.chart name c0 :: rs) node "Bezier".toList
     (b :: below) params hpar
   have hne : ([] ++ segs) ≠ [] := by
     intro e
@@ -551,7 +552,7 @@ theorem Run_writeBezier (sh : Shape) (name : Str) (c0 : Option Chart) (rs : List
     subst e
     simp at h2
   have r4 := Run_close_line (k := 4) (nm := "Bezier".toList) (by decide)
-    (fun line => closeTop_bezier_frame sh 2 segs.length cl o ([] ++ segs) params name c0 rs node line hne) b below
+    (fun line => closeTop_bezier_frame sh dim segs.length cl o ([] ++ segs) params name c0 rs node line hne) b below
   have := Run.append (Run.append (Run.append r1 r2) r3) r4
   simpa using this
 
@@ -697,7 +698,7 @@ theorem closeTop_bezier_params_short (st : St) (line : Nat) (size read sz : Nat)
 /-- a `<Bezier>` whose `dim` attribute is not 2 is a grammar error -/
 theorem openM_bezier_wrong_dim (st : St) (line : Nat) (m : Markup) (name : Str) (c0 : Option Chart)
     (rest : List Frame) (ds : Str) (d : Nat)
-    (hstack : st.stack = Frame.chart name c0 :: rest) (hd : st.dim = 2)
+    (hstack : st.stack = Frame.chart name c0 :: rest) (hd : st.wdim = 2)
     (hn : String.ofList m.name = "Bezier")
     (hc : checkAttribs line (specOf "Bezier") m.attrs = .ok ())
     (hdim : attrOf m "dim" = some ds) (hrd : readIndex ds = some d) (hne : d ≠ 2) :
@@ -713,7 +714,7 @@ theorem openM_bezier_wrong_dim (st : St) (line : Nat) (m : Markup) (name : Str) 
 /-- a `<Bezier>` with fewer than two vertex points is a grammar error -/
 theorem openM_bezier_small_size (st : St) (line : Nat) (m : Markup) (name : Str) (c0 : Option Chart)
     (rest : List Frame) (ss : Str) (size : Nat)
-    (hstack : st.stack = Frame.chart name c0 :: rest) (hd : st.dim = 2)
+    (hstack : st.stack = Frame.chart name c0 :: rest) (hd : st.wdim = 2)
     (hn : String.ofList m.name = "Bezier")
     (hc : checkAttribs line (specOf "Bezier") m.attrs = .ok ())
     (hsize : attrOf m "size" = some ss) (hrd : readIndex ss = some size) (hlt : size < 2) :
@@ -725,12 +726,12 @@ theorem openM_bezier_small_size (st : St) (line : Nat) (m : Markup) (name : Str)
   repeat' split
   all_goals first | rfl | (simp_all [gErr]; done) | (simp_all [gErr]; intros; omega)
 
-/-- a `<Bezier>` inside a chart of a mesh file that is not two-dimensional is a grammar error -/
+/-- a `<Bezier>` inside a chart of a mesh file whose world dimension is not 2 is a grammar error -/
 theorem openM_bezier_wrong_file_dim (st : St) (line : Nat) (m : Markup) (name : Str) (c0 : Option Chart)
     (rest : List Frame) (hstack : st.stack = Frame.chart name c0 :: rest)
-    (hn : String.ofList m.name = "Bezier") (hd : st.dim ≠ 2) :
+    (hn : String.ofList m.name = "Bezier") (hd : st.wdim ≠ 2) :
     openM st line m = gErr line := by
-  have hd' : (st.dim == 2) = false := by simpa using hd
+  have hd' : (st.wdim == 2) = false := by simpa using hd
   unfold openM
   rw [hstack]
   simp only [hn, hd']
